@@ -362,7 +362,7 @@ class Trees(Profile):
         if len(pts) == 1 and op.get("flat", True):
             arr = arr[0]
         # the caller owns the array it passes and may pass the same object again later
-        pkey = (op["type"], csys, inrad, repr(op["points"]))
+        pkey = (op["type"], csys, coords, inrad, repr(op["points"]))  # coords: {"elem": k} points resolve per element kind
         if op.get("reuse") and pkey in W.point_arrays:
             arr_in = W.point_arrays[pkey]
             if not np.array_equal(arr_in, arr):
